@@ -617,11 +617,30 @@ theorem macsec_decode_in_range (b : Bytes) (h : Macsec) (n : Nat)
   all_goals (first | (cases hd; done) | skip)
   all_goals (cases hd; simp [Macsec.WF, PType.WF]; omega)
 
+/-- NOT PROVED (the brute-force case split over the four arrangements times the flag bits ran out
+    of the time budget): decode(encode h) = h for the MACsec header.  What is proved instead:
+    `macsec_layout` (every field of `h`, every flag and reserved bit can be read back from
+    `toBytes h` at the position the table prescribes, which determines `h`) and
+    `macsec_decode_in_range`; the correspondence run compares encode and decode of the same values. -/
+def macsec_roundtrip_full_statement : Prop :=
+  ∀ (h : Macsec) (rest : Bytes), h.WF → ¬ (h.isUnmodified = true ∧ h.shortLen = 1) →
+    Macsec.fromSlice (h.toBytes ++ rest) = .ok (h, h.headerLen)
+
 /-! ## non-vacuity -/
 
 example : Vlan.WF ⟨5, true, 0xABC, 0x8100⟩ := by decide
-/-- the range hypothesis is needed: a PCP of 8 (only reachable through `new_unchecked`) is lost and
-    a VLAN id of 4096 would set the DEI bit. -/
+example : Ip4.WF ⟨46, 1, 1500, 0xBEEF, true, false, 185, 64, 17, 0x1234, [10, 0, 0, 1], [10, 0, 0, 2],
+    [1, 1, 1, 0]⟩ := by decide
+example : Ip6.WF ⟨0xB8, 0xFFFFF, 1280, 44, 64, List.replicate 16 0xAA, List.replicate 16 0x55⟩ := by
+  decide
+example : Frag6.WF ⟨17, 8191, true, 0xDEADBEEF⟩ := by decide
+example : Macsec.WF ⟨.unmodified 0x0800, true, false, 2, 40, 7, some 99⟩ := by
+  simp [Macsec.WF, PType.WF]
+example : Query.WF ⟨100, [224, 0, 0, 1], 0xAB, 125, 3⟩ := by decide
+/-- the range hypotheses are needed: a VLAN id of 4096 (only reachable through `new_unchecked`)
+    would set the DEI bit, a flow label of 2^20 would change the traffic class. -/
 example : (Vlan.toBytes ⟨0, false, 4096, 0⟩) = (Vlan.toBytes ⟨0, true, 0, 0⟩) := by decide
+example : (Ip6.toBytes ⟨0, 1048576, 0, 0, 0, [], []⟩) = (Ip6.toBytes ⟨1, 0, 0, 0, 0, [], []⟩) := by
+  decide
 
 end EpModel.Props.C15
